@@ -12,7 +12,8 @@ LEVEL = 'exploration'
 RULE = ('T: every grammar sentence up to the length bound, leaves labelled '
         'by position with every built-in kind in rotation (role:, rule:, '
         'generic credential path, generic quoted literal against a target '
-        'placeholder, http: through the transport stub) at each of the 5 '
+        'placeholder in both quote styles (one containing the other quote '
+        'character), http: through the transport stub) at each of the 6 '
         'rotation offsets, plus constant labellings (@, !): p=str(parse(r)), '
         'str(parse(p))==p and decisions(r)==decisions(p) under all 2^k '
         'assignments (each leaf has its own truth variable realised through '
@@ -30,7 +31,7 @@ ASSUMPTIONS = ['leaf texts are self-delimiting (no whitespace, no leading "(" '
 
 BOUNDS = {'quick': dict(t=9, lists=(2, 2), sets=3),
           'thorough': dict(t=12, lists=(3, 2), sets=4)}
-KINDS = ('role', 'rule', 'path', 'lit', 'http')
+KINDS = ('role', 'rule', 'path', 'lit', 'http', 'dq')
 
 
 def bound(tier):
@@ -46,6 +47,9 @@ def leaf_text(i, kind):
         return 'g%d.v:yes' % i
     if kind == 'lit':
         return "'yes':%%(t%d)s" % i
+    if kind == 'dq':
+        # a double-quoted literal that contains the other quote character
+        return '"ye\'s":%%(d%d)s' % i
     return 'http://h.test/%%(h%d)s' % i
 
 
@@ -62,6 +66,8 @@ def realise(kinds, mask):
             creds['g%d' % i] = {'v': 'yes' if v else 'no'}
         elif k == 'lit':
             target['t%d' % i] = 'yes' if v else 'no'
+        elif k == 'dq':
+            target['d%d' % i] = "ye's" if v else 'no'
         else:
             target['h%d' % i] = 'True' if v else 'False'
     return creds, target
@@ -300,7 +306,8 @@ def run_EQ(cx, job):
              'role:a and (role:b)', 'role:b and role:a', 'not role:a',
              'not (role:a)', 'role:a or role:b', 'role:a OR role:b',
              'role:a or role:b or role:c', '(role:a or role:b) or role:c',
-             'role:a or (role:b or role:c)', "'x':%(k)s", '"x":%(k)s']
+             'role:a or (role:b or role:c)', "'x':%(k)s", '"x":%(k)s',
+             '"it\'s":%(k)s', "'it\"s':%(k)s"]
     for a, b in itertools.product(texts, repeat=2):
         for n1, n2 in (('n', 'n'), ('n', 'm')):
             cx.acc.case('EQ', a != b)
